@@ -197,7 +197,7 @@ Section Safe.
     Z.of_nat (length q0) < psize cf ->
     exec (finalize_except cf false true ECancelled) (vstate q0 ov0 c rc tx no ni nw lg) w [] =
     (Raise ECancelled,
-     mkpst (q0 ++ [mkrec None false]) ov0 (Some (mkrec None false)) (Some (mkfairy true (Some c))) true rc tx no (S ni) nw false lg,
+     mkpst (q0 ++ [mkrec None false]) ov0 (Some (mkrec None false)) (Some (mkfairy false None)) true rc tx no (S ni) nw false lg,
      closed_conn w c, []).
   Proof.
     intros Hroom. unfold finalize_except. ex. unfold rec_invalidate. ex. unfold rec_close_impl. ex.
@@ -985,5 +985,26 @@ Section Safe.
         pose proof (gc_done s1 w1 [] B1) as G.
         destruct (exec (gc_collect cf) s1 w1 []) as [[[o2 s2] w2] cs2].
         destruct G as (_ & G1 & _). apply IH; auto.
+  Qed.
+
+  (* what [Done] says, in the words of the property *)
+  Lemma done_spelled s w : Done s w ->
+    psize cf - Z.of_nat (length (q s)) + ov s = 0 /\
+    n_out s = n_in s /\
+    (forall r c, In r (q s) -> r_conn r = Some c -> d_open (getc w c) = true /\ d_txn (getc w c) = false) /\
+    NoDup (qconns (q s)) /\
+    (forall c, d_txn (getc w c) = false) /\
+    cur_fairy s = false /\ oom s = false.
+  Proof.
+    intros [D1 D2 D3 D4 D5 D6 D7 D8]. split; [lia|]. split; [auto|]. split; [|auto].
+    intros r c Hr Hc. unfold qok in D4. rewrite Forall_forall in D4. destruct (D4 r Hr) as [_ B]. rewrite Hc in B.
+    split; [tauto|auto].
+  Qed.
+
+  Lemma tasks_safe_init bs cs : (ncancel cs <= 1)%nat ->
+    let '(s', w', _) := run_tasks bs (init_pst cf) init_world cs in Done s' w'.
+  Proof.
+    intros Hc. pose proof (tasks_safe bs (init_pst cf) init_world cs init_done Hc) as T.
+    destruct (run_tasks bs (init_pst cf) init_world cs) as [[s' w'] cs']. exact (proj1 T).
   Qed.
 End Safe.
